@@ -124,7 +124,9 @@ impl BuildOptimiser {
             kt_ratio,
             max_step_size: self.max_step_size,
             steps: self.steps,
-            inner_steps: u64::min(self.inner_steps, self.steps),
+            // An inner loop is at least one step long, so the number of loops is well defined
+            // for inner_steps = 0 (one step per loop) and steps = 0 (no loops at all).
+            inner_steps: u64::max(1, u64::min(self.inner_steps, self.steps)),
             seed,
             convergence: self.convergence,
         }
